@@ -50,7 +50,26 @@ G4 == [addrs |-> {"a","b","c","d","e"},
        seeds |-> {C("a", 1), C("a", NoId)}, late |-> {},
        bad |-> {}, badp |-> {}]
 
-G == CASE Graph = "g1" -> G1 [] Graph = "g2" -> G2 [] Graph = "g3" -> G3 [] Graph = "g4" -> G4
+\* g5: an adversary lists one victim address under four IDs, in two replies and in the seed set; a filtered
+\* address is listed by an honest node; the late call repeats the victim under a fifth ID
+G5 == [addrs |-> {"a","b","v","x","y"},
+       net |-> [a \in {"a","b","v","x","y"} |->
+          CASE a = "a" -> R(7, TRUE, {C("v",1), C("v",2), C("b",4), C("x",0)})
+            [] a = "b" -> R(4, TRUE, {C("v",2), C("v",3), C("y",5), C("a",7)})
+            [] a = "v" -> R(2, TRUE, {C("a",7)})
+            [] a = "x" -> R(0, TRUE, {})
+            [] a = "y" -> Silent],
+       seeds |-> {C("a", 7), C("v", 6)}, late |-> {C("v", 5), C("y", NoId)},
+       bad |-> {"x"}, badp |-> {}]
+\* g6: honest network of seven nodes, everyone answers with the true 3 closest to target 0
+HB == {"m1","m2","m3","m4","m5","m6","m7"}
+HBId(a) == CASE a="m1"->1 [] a="m2"->2 [] a="m3"->3 [] a="m4"->4 [] a="m5"->5 [] a="m6"->6 [] a="m7"->7
+G6 == [addrs |-> HB,
+       net |-> [a \in HB |-> R(HBId(a), TRUE, {C("m1",1), C("m2",2), C("m3",3)})],
+       seeds |-> {C("m7", 7), C("m6", NoId)}, late |-> {},
+       bad |-> {}, badp |-> {}]
+
+G == CASE Graph = "g1" -> G1 [] Graph = "g2" -> G2 [] Graph = "g3" -> G3 [] Graph = "g4" -> G4 [] Graph = "g5" -> G5 [] Graph = "g6" -> G6
 
 \* environment actions are appended to hist only when generating schedules
 Rec(x) == hist' = IF GenHist THEN Append(hist, x) ELSE hist
@@ -99,6 +118,8 @@ View == <<unq, queried, closest, qs, stopping, stopped, run, runSig, stp, stpSig
           qcount, learned, eligible>>
 
 \* C02, honest-network clause (graph g2): the stalled result is exactly the K closest
-HonestResult == (Graph = "g2" /\ run.offer /\ run.pc = "select" /\ ~runSig /\ learned # {})
-                  => closest = {[id |-> 1, addr |-> "n1"], [id |-> 2, addr |-> "n2"]}
+HonestResult == /\ (Graph = "g2" /\ run.offer /\ run.pc = "select" /\ ~runSig /\ learned # {})
+                     => closest = {[id |-> 1, addr |-> "n1"], [id |-> 2, addr |-> "n2"]}
+                /\ (Graph = "g6" /\ cfg.k = 3 /\ run.offer /\ run.pc = "select" /\ ~runSig /\ learned # {})
+                     => closest = {[id |-> 1, addr |-> "m1"], [id |-> 2, addr |-> "m2"], [id |-> 3, addr |-> "m3"]}
 =============================================================================
